@@ -106,12 +106,13 @@ def check_text(text, acc, want_calls=False):
     ig = IdGenerator()
     p = Parser(AstBuilder(ig))
     I.Traced(p, acc)
-    sc = CountingScanner(text, nl)
     m = CountingMatcher()
-    m.scanner = sc
     doc = None
     outcome = None
+    sc = None
     try:
+        sc = CountingScanner(text, nl)
+        m.scanner = sc
         doc = p.parse(sc, m)
         outcome = 'document'
     except CompositeParserException as e:
@@ -132,7 +133,12 @@ def check_text(text, acc, want_calls=False):
         acc.violation('foreign-exception', case, 'collecting parse raised %s: %s' % (type(e).__name__, e))
         outcome = 'exc'
     acc.outcomes[outcome] += 1
+    if sc is None:
+        return None
     acc.maximum('match_calls_per_line_read', m.calls / max(1, sc.reads))
+    if outcome == 'document' and not isinstance(doc, dict):
+        acc.violation('document-type', case, 'Parser.parse returned %r instead of a document' % (doc,))
+        doc = None
     if sc.reads != nl + 1 and outcome == 'document':
         acc.violation('lines-read', case, 'accepted %d-line document but scanner was read %d times' % (nl, sc.reads))
     if doc is not None:
